@@ -96,7 +96,7 @@ def _vv_reference(calc, x, p, m, dt, nsteps):
     return x, p
 
 
-def sc_reference(V, n=1, nsteps=1, apply_constraints=True):
+def sc_reference(V, n=1, nsteps=1, apply_constraints=True, reassign=False):
     from ase.units import fs
 
     from quansino.integrators.displacement import Verlet
@@ -104,11 +104,17 @@ def sc_reference(V, n=1, nsteps=1, apply_constraints=True):
     atoms, x0, m = _atoms(V, n)
     p0 = np.array(atoms.get_momenta())
     dt = V.real("dt", lo=0, lo_strict=True, hi=20)
-    integ = Verlet(dt=dt, max_steps=nsteps, apply_constraints=apply_constraints)
+    if reassign:
+        # the time step and step count are public tunables: set after construction
+        integ = Verlet(dt=V.real("dt_init", lo=0, lo_strict=True, hi=20), max_steps=7, apply_constraints=apply_constraints)
+        integ.dt = dt * fs
+        integ.max_steps = nsteps
+    else:
+        integ = Verlet(dt=dt, max_steps=nsteps, apply_constraints=apply_constraints)
     integ.integrate(_ctx(atoms))
     xr, pr = _vv_reference(atoms.calc, x0, p0, m, dt * fs, nsteps)
-    V.prove(V.eq(atoms.get_positions(), xr, tol=1e-9), "positions==velocity-verlet", info=f"n={n}:steps={nsteps}:ac={apply_constraints}")
-    V.prove(V.eq(atoms.get_momenta(), pr, tol=1e-9), "momenta==velocity-verlet", info=f"n={n}:steps={nsteps}:ac={apply_constraints}")
+    V.prove(V.eq(atoms.get_positions(), xr, tol=1e-9), "positions==velocity-verlet", info=f"n={n}:steps={nsteps}:ac={apply_constraints}:reassign={reassign}")
+    V.prove(V.eq(atoms.get_momenta(), pr, tol=1e-9), "momenta==velocity-verlet", info=f"n={n}:steps={nsteps}:ac={apply_constraints}:reassign={reassign}")
     V.prove(atoms.calc.ncalls == nsteps + 1, "one-force-evaluation-per-step", info=f"steps={nsteps}")
     V.reach("done")
 
@@ -176,11 +182,14 @@ def sc_refresh(V, n=2, forced=False):
         K0 = sum(sum(r) for r in raw)
         r = 2 * K0 / dof
         if V.mode == "sym":
-            # target: 2K'/dof = kT * r/(r+1e-15); hence within 1e-10 relative of kT once r >= 1e-4 eV
-            V.assume(SB(lift(r) >= lift(1e-4)))
+            # exact law of the code: 2K'/dof * (r + 1e-15) = kT * r  (r = raw kinetic temperature in eV)
             kT = lift(kB * T)
             lhs = lift(2 * K / dof)
-            V.prove(SB(z3.And(lhs <= kT, lhs >= kT * (1 - z3.RealVal("1/10000000000")))), "forced-kinetic-temperature", info="forced")
+            V.prove(SB(lhs * (lift(r) + lift(1e-15)) == kT * lift(r)), "forced-kinetic-temperature", info="forced")
+            # ... hence within 1e-10 relative of kT once r >= 1e-4 eV (abstract arithmetic lemma)
+            X, R, KT = z3.Reals("lemX lemR lemKT")
+            lem = z3.Implies(z3.And(KT > 0, R >= lift(1e-4), X * (R + lift(1e-15)) == KT * R), z3.And(X <= KT, X >= KT * (1 - z3.RealVal("1/10000000000"))))
+            V.prove(SB(lem), "forced-kinetic-temperature-band", info="forced")
         else:
             if r < 1e-4:
                 raise symx.ReplayMismatch("r too small")
@@ -188,30 +197,51 @@ def sc_refresh(V, n=2, forced=False):
     V.reach("done")
 
 
-def sc_kinetic_bookkeeping(V, n=1):
-    from quansino.moves.displacement import HamiltonianDisplacementMove
+def sc_kinetic_bookkeeping(V, n=1, vetoes=0):
+    """After the move, the kinetic energy the criteria will use is that of the momenta drawn for the
+    attempt that was kept (also when the user's check vetoed earlier attempts), and the trajectory
+    kept is the one integrated from those momenta."""
+    from ase.units import fs
+
     from quansino.integrators.displacement import Verlet
+    from quansino.moves.displacement import HamiltonianDisplacementMove
 
     atoms, x0, m = _atoms(V, n, momenta=True)
+    x0 = np.array(x0)
     T = V.real("T", lo=0, lo_strict=True, hi=5000)
     rng = shims.SymRNG("mb") if V.mode == "sym" else shims.ScriptedRNG(V.w.get("draws", []))
     ctx = _ctx(atoms, rng)
     ctx.temperature = T
     ctx.last_kinetic_energy = V.real("Kold", lo=0)
-    move = HamiltonianDisplacementMove(operation=Verlet(dt=V.real("dt", lo=0, lo_strict=True, hi=20), max_steps=1))
-    captured = {}
+    dt = V.real("dt", lo=0, lo_strict=True, hi=20)
+    move = HamiltonianDisplacementMove(operation=Verlet(dt=dt, max_steps=1))
+    captured = []
     orig = move.distribution
 
     def spy(context):
         orig(context)
-        captured["p"] = np.array(context.atoms.get_momenta())
+        captured.append(np.array(context.atoms.get_momenta()))
 
     move.distribution = spy
+    calls = []
+
+    def check(context):
+        calls.append(1)
+        return len(calls) > vetoes
+
+    move.check_move = check
     ok = move(ctx)
     V.prove(bool(ok), "move-succeeds")
-    pf = captured["p"]
+    V.prove(len(captured) >= 1, "momenta-refreshed")
+    if not captured:
+        return
+    pf = captured[-1]
     Kf = sum(pf[i, k] * pf[i, k] / (2 * m[i]) for i in range(n) for k in range(3))
-    V.prove(V.eq(np.array([ctx.last_kinetic_energy]), np.array([Kf]), tol=1e-9), "kinetic-energy-of-fresh-momenta", info=f"n={n}")
+    info = f"n={n}:vetoes={vetoes}"
+    V.prove(V.eq(np.array([ctx.last_kinetic_energy]), np.array([Kf]), tol=1e-9), "kinetic-energy-of-fresh-momenta", info=info)
+    xr, pr = _vv_reference(atoms.calc, x0, pf, m, dt * fs, 1)
+    V.prove(V.eq(atoms.get_positions(), xr, tol=1e-9), "kept-trajectory-starts-from-fresh-momenta", info=info)
+    V.prove(V.eq(atoms.get_momenta(), pr, tol=1e-9), "kept-momenta-from-fresh-momenta", info=info)
     V.reach("done")
 
 
@@ -231,13 +261,17 @@ def _plan(tier):
     for n in ns:
         for steps in (1, 2):
             for ac in (True, False):
-                plan.append(("reference", dict(n=n, nsteps=steps, apply_constraints=ac), ("done",)))
+                plan.append(("reference", dict(n=n, nsteps=steps, apply_constraints=ac, reassign=False), ("done",)))
+        plan.append(("reference", dict(n=n, nsteps=1, apply_constraints=True, reassign=True), ("done",)))
+        plan.append(("reference", dict(n=n, nsteps=2, apply_constraints=False, reassign=True), ("done",)))
         for ac in (True, False):
             plan.append(("reversible", dict(n=n, nsteps=1, apply_constraints=ac), ("done",)))
-            plan.append(("reversible", dict(n=n, nsteps=2, apply_constraints=ac), ("done",)))
+        if tier != "quick":
+            plan.append(("reversible", dict(n=n, nsteps=2, apply_constraints=False), ("done",)))
     plan.append(("refresh", dict(n=1 if tier == "quick" else 2, forced=False), ("done",)))
     plan.append(("refresh", dict(n=1, forced=True), ("done",)))
-    plan.append(("kinetic", dict(n=1), ("done",)))
+    for v in (0, 1, 2):
+        plan.append(("kinetic", dict(n=1, vetoes=v), ("done",)))
     return plan
 
 
@@ -245,7 +279,7 @@ def run(rep: Report):
     tier = rep.tier
     opts = {"prove_timeout_ms": 20000 if tier == "quick" else 120000, "fork_timeout_ms": 3000, "seed": rep.seed}
     run_plan(rep, _plan(tier), SCENARIOS, opts)
-    rep.bounds = {"atoms": "1 (quick) / <=2 (thorough)", "integration steps": "<=2 direct; the 1-step reversal from an arbitrary state is the inductive step for any number", "force field": "uninterpreted functions of all coordinates (any potential)"}
+    rep.bounds = {"atoms": "1 (quick) / <=2 (thorough)", "integration steps": "<=2 direct (2-step reversal only without the constraint branch); the 1-step reversal from an arbitrary state is the inductive step for any number, and the 2-step equality with the textbook map covers the loop-carried forces", "force field": "uninterpreted functions of all coordinates (any potential)"}
     rep.assumptions = ["masses in [0.5,300], dt in (0,20] fs, T in (0,5000] K", "floats as exact reals ('up to rounding' clauses proved exactly)", "forced refresh: raw kinetic temperature >= 1e-4 eV"]
     rep.stubs = ["UFForceCalc: forces are uninterpreted functions F_ik(x)", "SymRNG: standard_normal draws are unconstrained reals tagged N(0,1)", "SymAtoms"]
     rep.outside = ["order of accuracy of the energy error as a numerical statement (follows from equality with the textbook velocity-Verlet map)", "stability range", "normality of numpy's standard_normal"]
